@@ -17,7 +17,7 @@
                     theta-hat_{i(j)} > 0 for (i,j) = (1,2),(2,3),(3,1);
                     zeta^i_{j(k)} > 0 iff j = i+1 or k = i+2 (cyclically), i in {1,2,3}. *)
 From AV Require Import DenR PhspMath Dpd.
-From AVchk Require Import Gen_C19 C19_lemmas.
+From AVchk Require Import Gen_C19 C19_lemmas C19_lemmas2.
 Open Scope R_scope.
 
 (* ---------- which tuples raise (all 16 / 16 / 64 tuples) ---------- *)
@@ -184,6 +184,54 @@ Theorem C19_acos_args_in_range_zeta :
   lookup3 zeta_tab i j k = Some (inl t) -> wdR (envD m0 m1 m2 m3 m12 m13 m23) t.
 Proof. exact zeta_all_wd. Qed.
 
+(* ---------- evaluation routes that substitute masses BEFORE doit() ----------
+   Kallen(...).doit() called with structurally equal, zero or numeric arguments (what happens when
+   equal fixed masses are substituted into the still unevaluated angle expression) denotes the
+   Kallen polynomial at those arguments. *)
+Theorem C19_kallen_equal_arguments : forall x y z,
+  let ρ := envK x y z in
+  (wdR ρ gen_kallen_xyy /\ denR ρ gen_kallen_xyy = kallenR x y y) /\
+  (wdR ρ gen_kallen_xxz /\ denR ρ gen_kallen_xxz = kallenR x x z) /\
+  (wdR ρ gen_kallen_xyx /\ denR ρ gen_kallen_xyx = kallenR x y x) /\
+  (wdR ρ gen_kallen_xxx /\ denR ρ gen_kallen_xxx = kallenR x x x) /\
+  (wdR ρ gen_kallen_x00 /\ denR ρ gen_kallen_x00 = kallenR x 0 0) /\
+  (wdR ρ gen_kallen_0yy /\ denR ρ gen_kallen_0yy = kallenR 0 y y) /\
+  (wdR ρ gen_kallen_xy0 /\ denR ρ gen_kallen_xy0 = kallenR x y 0) /\
+  (wdR ρ gen_kallen_x0z /\ denR ρ gen_kallen_x0z = kallenR x 0 z) /\
+  (wdR ρ gen_kallen_000 /\ denR ρ gen_kallen_000 = kallenR 0 0 0) /\
+  (wdR ρ gen_kallen_sq_equal /\ denR ρ gen_kallen_sq_equal = kallenR x (y^2) (y^2)) /\
+  (wdR ρ gen_kallen_sq_first /\ denR ρ gen_kallen_sq_first = kallenR (x^2) (x^2) (z^2)) /\
+  (wdR ρ gen_kallen_num_44 /\ denR ρ gen_kallen_num_44 = kallenR x 4 4) /\
+  (wdR ρ gen_kallen_num_q /\ denR ρ gen_kallen_num_q = kallenR x (1/4) (1/4)) /\
+  (wdR ρ gen_kallen_num_11 /\ denR ρ gen_kallen_num_11 = kallenR 1 1 z).
+Proof. exact kallen_equal_arguments. Qed.
+
+(* The builders create their mass symbols themselves, so equal symbols can only be introduced by
+   substitution into the returned (unevaluated) expression.  For each of the 18 distinct arccosines
+   and each identification m_2:=m_1 | m_3:=m_1 | m_3:=m_2 | m_2,m_3:=m_1 (72 regenerated trees
+   `raw.xreplace(..).doit()`): the tree is well defined and has the same value as the generic tree
+   at equal masses, for ALL real masses at which the latter is defined.  Together with the
+   geometric theorems (which allow equal masses) this is "substitute, then doit" = the geometry. *)
+Theorem C19_equal_mass_substitution_all :
+  length eqmass_variants = 72%nat /\
+  Forall (fun e : nat * expr * expr =>
+    forall m0 m1 m2 m3 m12 m13 m23,
+    wdR (env_tag (fst (fst e)) m0 m1 m2 m3 m12 m13 m23) (snd (fst e)) ->
+    wdR (envD m0 m1 m2 m3 m12 m13 m23) (snd e) /\
+    denR (envD m0 m1 m2 m3 m12 m13 m23) (snd e)
+    = denR (env_tag (fst (fst e)) m0 m1 m2 m3 m12 m13 m23) (snd (fst e))) eqmass_variants.
+Proof. exact (conj variants_count variants_ok). Qed.
+
+(* composed instance: theta_12 with m_2 := m_1 substituted before doit() is the helicity angle *)
+Theorem C19_theta12_equal_masses_substituted :
+  forall E1 x1 y1 z1 E2 x2 y2 z2 E3 x3 y3 z3 m0 m1 m2' m3 m12 m13 m23,
+  is_event E1 x1 y1 z1 E2 x2 y2 z2 E3 x3 y3 z3 m0 m1 m1 m3 m12 m13 m23 ->
+  interior x2 y2 z2 x3 y3 z3 ->
+  wdR (envD m0 m1 m2' m3 m12 m13 m23) gen_scat_1_2_eq0 /\
+  denR (envD m0 m1 m2' m3 m12 m13 m23) gen_scat_1_2_eq0
+  = acos (- cosf (vadd (V4 E1 x1 y1 z1) (V4 E2 x2 y2 z2)) (V4 E1 x1 y1 z1) (V4 E3 x3 y3 z3)).
+Proof. exact theta12_equal_masses. Qed.
+
 (* ---------- the hypotheses are satisfiable: a concrete interior event (one massless particle) *)
 Example C19_event_exists :
   is_event (3/2) (-1) (-1) 0  1 1 0 0  (5/4) 0 1 0
@@ -210,4 +258,7 @@ Print Assumptions C19_zeta_massless_zero.
 Print Assumptions C19_acos_args_in_range_scattering.
 Print Assumptions C19_acos_args_in_range_theta_hat.
 Print Assumptions C19_acos_args_in_range_zeta.
+Print Assumptions C19_kallen_equal_arguments.
+Print Assumptions C19_equal_mass_substitution_all.
+Print Assumptions C19_theta12_equal_masses_substituted.
 Print Assumptions C19_event_exists.
